@@ -244,14 +244,16 @@ Pow2Kernel(kh, kw) ==
 
 \* Every combination of the SimulatorImaging options that keep the simulated data noise-free
 \* (add_poisson_noise_to_data = FALSE throughout):
-\*   sky      background_sky_level, in data units (0, small, large, negative)
+\*   sky      background_sky_level, in data units (0, small, large, negative, very negative)
 \*   subtract subtract_background_sky
 \*   norm     "raw": unnormalised kernel, normalize_psf=True; "unit_norm": unit-sum kernel, normalize_psf=True;
-\*            "unit_asis": unit-sum kernel, normalize_psf=False
+\*            "unit_asis": unit-sum kernel, normalize_psf=False; "raw_asis": unnormalised kernel, normalize_psf=False
+\*            (data and fit are then both made with the unnormalised kernel)
 \*   noise    "const1" / "const8th": include_poisson_noise_in_noise_map=False with noise_if_add_noise_false 1 / 0.125;
-\*            "poisson": include_poisson_noise_in_noise_map=True (noise-free data, realistic noise map)
-SimOptionSet == [sky : {0, 3, 64, -1}, subtract : BOOLEAN, norm : {"raw", "unit_norm", "unit_asis"},
-                 noise : {"const1", "const8th", "poisson"}]
+\*            "poisson": include_poisson_noise_in_noise_map=True (noise-free data, realistic noise map; Poisson
+\*            deviates are drawn from image + sky, which the API admits only when that is non-negative)
+SimOptionSet == { o \in [sky : {0, 3, 64, -1, -200}, subtract : BOOLEAN, norm : {"raw", "unit_norm", "unit_asis", "raw_asis"},
+                          noise : {"const1", "const8th", "poisson"}] : ~ (o.noise = "poisson" /\ o.sky < -1) }
 NoSim == [sky |-> 0, subtract |-> TRUE, norm |-> "none", noise |-> "none"]
 
 \* the sky that the returned data still contain
@@ -437,7 +439,7 @@ SimulateThenFitResidualZero ==
                 model == MaskedBlurOfNative(U, Kern, HH, WW, KH, KW, nat)
             IN /\ conv = model
                /\ conv = GatherOn(WholeFrame(nat, Kern, HH, WW, KH, KW), us, WW)
-               /\ \A sky \in {0, 3, 64, -1} : \A sub \in BOOLEAN :
+               /\ \A sky \in {0, 3, 64, -1, -200} : \A sub \in BOOLEAN :
                      LET o == [sky |-> sky, subtract |-> sub, norm |-> "raw", noise |-> "const1"]
                      IN [k \in 1 .. NU |-> (conv[k] + sky - (IF sub THEN sky ELSE 0)) - SkyLeft(o) - model[k]] = Zeros(NU)
 \* the same, as the simulator's step sequence and the frame tables compute it
